@@ -6,6 +6,7 @@
   labsim selftest sensitivity [ids] built-in mutants of /repo in a scratch copy: the property's
                                     quick check must report a violation for each
   labsim selftest tzexec [n]        tzset()-in-forked-child == TZ at process start-up
+  labsim selftest oracles           every clause of the C04 / C12 models fires on a hand-made counter-example
   labsim selftest digests <sim> <n> <workers> <start>   (internal) print digests as JSON
 """
 
@@ -303,9 +304,143 @@ def main(argv):
         return sensitivity(argv[1:])
     if argv[0] == "tzexec":
         return tzexec(argv[1:])
+    if argv[0] == "oracles":
+        return oracles(argv[1:])
     if argv[0] == "digests":
         sim, n, workers, start = argv[1], int(argv[2]), int(argv[3]), int(argv[4])
         print(json.dumps(_digests(sim, n, workers, start)))
         return 0
     print(__doc__)
     return 2
+
+
+# ---------------------------------------------------------------- oracle self-test
+
+def oracles(argv):
+    """Every clause of the two executable models must fire on a hand-made
+    counter-example (and stay silent on a correct one): shows that no clause is
+    dead code.  Uses the real Node class for C04 and fake scales for C12."""
+    from .util import import_labella
+
+    import_labella()
+    from labella.node import Node
+    from .sims import engine as E, scale as S
+
+    ok = True
+    results = []
+
+    def expect(name, got, want):
+        nonlocal ok
+        g = got[0] if got else None
+        good = g == want
+        ok = ok and good
+        results.append({"case": name, "expected": want, "got": g, "ok": good})
+        print("  %-44s expected=%-34s got=%s %s" % (name, want, g, "" if good else "  <-- MISMATCH"))
+
+    def build(k_layers=3):
+        """labels a (layer 0), b (layer 1), c (layer 2) with correct chains"""
+        a, b, c = Node(10, 20, data={"i": 0}), Node(12, 20, data={"i": 1}), Node(14, 20, data={"i": 2})
+        sb = b.createStub(1)
+        sc1 = c.createStub(1)
+        sc0 = sc1.createStub(1)
+        layers = [[a, sb, sc0], [b, sc1], [c]]
+        for li, layer in enumerate(layers):
+            for it in layer:
+                it.layerIndex = li
+        return [a, b, c], layers, (sb, sc1, sc0)
+
+    opts = {"algorithm": "overlap", "layerWidth": 30, "density": 1, "nodeSpacing": 1, "stubWidth": 1}
+    print("C04 structural model:")
+    labels, layers, _ = build()
+    expect("correct layering", E.check_c04(layers, labels, opts, True, {}), None)
+    expect("None reported", E.check_c04(None, labels, opts, True, {}), "report_not_a_layering")
+    labels, layers, _ = build(); layers[1].append(labels[0])
+    expect("label in two layers", E.check_c04(layers, labels, opts, True, {}), "item_in_two_places")
+    labels, layers, _ = build(); layers[0].remove(labels[0])
+    expect("label missing", E.check_c04(layers, labels, opts, True, {}), "label_missing")
+    labels, layers, (sb, sc1, sc0) = build(); layers.insert(1, [])
+    expect("gap in label layers", E.check_c04(layers, labels, opts, False, {}), "label_layers_not_contiguous")
+    labels, layers, _ = build(); layers.append([Node(1, 1)])
+    expect("items beyond outermost label layer", E.check_c04(layers, labels, opts, False, {}), "items_beyond_outermost_label_layer")
+    labels, layers, _ = build(); labels[1].layerIndex = 0
+    expect("layerIndex mismatch", E.check_c04(layers, labels, opts, True, {}), "layerIndex_mismatch")
+    labels, layers, (sb, sc1, sc0) = build(); sc1.parent = None; layers[0].remove(sc0)
+    expect("chain too short", E.check_c04(layers, labels, opts, False, {}), "chain_too_short")
+    labels, layers, (sb, sc1, sc0) = build(); layers[0].remove(sc0); layers[1].append(sc0)
+    expect("stub in wrong layer", E.check_c04(layers, labels, opts, False, {}), "stub_in_wrong_layer")
+    labels, layers, (sb, sc1, sc0) = build(); sb.child = None
+    expect("stub child link broken", E.check_c04(layers, labels, opts, False, {}), "stub_child_link_broken")
+    labels, layers, (sb, sc1, sc0) = build(); sb.idealPos = 99
+    expect("stub wrong position", E.check_c04(layers, labels, opts, False, {}), "stub_wrong_position")
+    labels, layers, (sb, sc1, sc0) = build(); sb.data = {"i": 1}
+    expect("stub wrong payload (equal but not identical)", E.check_c04(layers, labels, opts, False, {}), "stub_wrong_payload")
+    labels, layers, (sb, sc1, sc0) = build(); sc1.width = 5
+    expect("stub wrong width", E.check_c04(layers, labels, opts, False, {}), "stub_wrong_width")
+    labels, layers, (sb, sc1, sc0) = build(); extra = sc0.createStub(1)
+    expect("chain too long", E.check_c04(layers, labels, opts, False, {}), "chain_too_long")
+    labels, layers, _ = build(); layers[0].append(Node(3, 1))
+    expect("foreign item", E.check_c04(layers, labels, opts, False, {}), "foreign_item")
+    labels, layers, _ = build()
+    expect("split without upper bound", E.check_c04(layers, labels, dict(opts, layerWidth=None), False, {}), "split_without_upper_bound")
+    labels, layers, _ = build()
+    expect("split although it fits", E.check_c04(layers, labels, dict(opts, layerWidth=1000), False, {}), "split_although_fits")
+    labels, layers, _ = build()
+    expect("split although it fits exactly", E.check_c04(layers, labels, dict(opts, layerWidth=62), False, {}), "split_although_fits")
+    a, b, c, d = [Node(10 + i, 20, data={"i": i}) for i in range(4)]
+    expect("layer over budget with 4 labels", E.check_c04([[a, b, c, d]], [a, b, c, d], opts, False, {}), "layer_over_budget")
+    a, b = Node(10, 20), Node(11, 20)
+    expect("two labels over budget tolerated", E.check_c04([[a, b]], [a, b], opts, False, {}), None)
+
+    print("C12 reference model:")
+
+    class Fake(object):
+        def __init__(self, d, r, clamp=False, f=None, inv=None, scale=None):
+            self._d, self._r, self._c = d, r, clamp
+            self._f = f or self._affine
+            self._inv = inv or self._affine_inv
+            self.scale = scale or self.__call__
+
+        def _t(self, x):
+            t = (x - self._d[0]) / (self._d[1] - self._d[0])
+            return max(0, min(1, t)) if self._c else t
+
+        def _affine(self, x):
+            t = self._t(x)
+            return self._r[0] * (1 - t) + self._r[1] * t
+
+        def _affine_inv(self, y):
+            t = (y - self._r[0]) / (self._r[1] - self._r[0])
+            t = max(0, min(1, t)) if self._c else t
+            return self._d[0] * (1 - t) + self._d[1] * t
+
+        def __call__(self, x):
+            return self._f(x)
+
+        def invert(self, y):
+            return self._inv(y)
+
+        def domain(self):
+            return self._d
+
+        def range(self):
+            return self._r
+
+        def clamp(self):
+            return self._c
+
+    fr = [0.0, 1.0, 0.5, -0.5, 2.0, 0.25, 0.3, 0.7, 1.4, -0.2]
+    expect("correct scale", S.check_scale(Fake([1.0, 5.0], [0.0, 100.0]), fr, {}), None)
+    expect("correct clamped scale", S.check_scale(Fake([5.0, 1.0], [100.0, 0.0], clamp=True), fr, {}), None)
+    expect("maps another domain", S.check_scale(Fake([1.0, 5.0], [0.0, 100.0], f=lambda x: 25 * (x - 2)), fr, {}), "I1_endpoints")
+    expect("end point one ulp off", S.check_scale(Fake([1.0, 5.0], [0.0, 100.0], f=lambda x: 0.0 + (100.0 - 0.0) * ((x - 1.0) / 4.0) + (1.5e-14 if x == 5.0 else 0)), fr, {}), "I1_endpoints")
+    expect("not affine in between", S.check_scale(Fake([1.0, 5.0], [0.0, 100.0], f=lambda x: 100 * ((x - 1) / 4) ** 3 if 1 < x < 5 else 25 * (x - 1)), fr, {}), "I5_affine")
+    expect("invert is not the inverse", S.check_scale(Fake([1.0, 5.0], [0.0, 100.0], inv=lambda y: 1 + y / 20), fr, {}), "I5_invert")
+    expect("clamp leaves the range", S.check_scale(Fake([1.0, 5.0], [0.0, 100.0], clamp=True, f=lambda x: 25 * (x - 1)), fr, {}), "I5_clamp_range")
+    expect("clamp wrong inside the domain", S.check_scale(Fake([1.0, 5.0], [0.0, 100.0], clamp=True, f=lambda x: min(100, max(0, 25 * (x - 1))) if not 1 < x < 5 else 50.0), fr, {}), "I5_clamp_inside")
+    expect("clamp does not saturate outside", S.check_scale(Fake([1.0, 5.0], [0.0, 100.0], clamp=True, f=lambda x: 99.0 if x > 5 else min(100, max(0, 25 * (x - 1)))), fr, {}), "I5_clamp_outside")
+    expect("scale() entry point unclamped", S.check_scale(Fake([1.0, 5.0], [0.0, 100.0], clamp=True, scale=lambda x: 25 * (x - 1)), fr, {}), "I5_clamp_range")
+    with open(os.path.join(VERIF, "evidence", "selftest_oracles.json"), "w") as f:
+        json.dump({"ok": ok, "cases": results}, f, indent=1)
+        f.write("\n")
+    print("ORACLES " + ("OK" if ok else "FAILED"))
+    return 0 if ok else 2
